@@ -5,6 +5,7 @@ import (
 	"fmt"
 	"os"
 	"path/filepath"
+	"sort"
 	"strconv"
 	"strings"
 	"testing"
@@ -231,7 +232,10 @@ func TestMP4Frames(t *testing.T) {
 	}
 	out := os.Getenv("C16_MP4_OUT")
 	seen := map[string]int{}
-	for sub := 0; sub < mp4SysCount()+300; sub++ {
+	for sub := 0; sub < mp4SysCount()+len(tblSys)+400; sub++ {
+		if sub >= mp4SysCount() && sub < mp4SysCount()+len(tblSys) {
+			continue // TestMP4Tables
+		}
 		r := runner.NewRand(1, runner.HashStr("C16"), uint64(sub)+1)
 		mc := genMP4(r, sub)
 		if mc == nil {
@@ -248,6 +252,9 @@ func TestMP4Frames(t *testing.T) {
 		// every file, whatever it carries, must be a well-formed container: the boxes tile it exactly
 		if _, err := boxwalk.Walk(file); err != nil {
 			t.Errorf("%s: the file does not tile into boxes: %v", mc.desc, err)
+		}
+		if mc.tblClass != "none" {
+			continue // TestMP4Tables
 		}
 		if mc.smpClass == "valid" {
 			switch mc.cfgClass {
@@ -302,5 +309,125 @@ func TestMP4Frames(t *testing.T) {
 			}
 		}
 	}
-	fmt.Println(len(seen), "distinct (frame, config class, sample class) of", mp4SysCount()+300, "cases")
+	fmt.Println(len(seen), "distinct (frame, config class, sample class) of", mp4SysCount()+400, "cases")
+}
+
+// TestMP4Tables checks the table editor (mp4tbl.go) against the library
+// (development aid): every class x variant x frame x codec of the systematic
+// part must leave a file that tiles into boxes; the control classes must leave
+// a file whose samples the library still finds where they were put; for the
+// hostile classes it prints whether mp4.DecodeFile still accepts the container
+// (a class the container parser rejects never reaches the tool code).
+func TestMP4Tables(t *testing.T) {
+	env := &runner.Env{Tier: "quick", Seed: 1, RepoDir: "/repo"}
+	s, err := loadSeeds(env)
+	if err != nil {
+		t.Fatal(err)
+	}
+	seeds = s
+	defaultMaps = buildDefaultMaps(s)
+	loadRealMP4s(env)
+	out := os.Getenv("C16_MP4_OUT")
+	rejected := map[string]int{}
+	accepted := map[string]int{}
+	names := map[string]bool{}
+	for i := range tblClasses {
+		if names[tblClasses[i].name] {
+			t.Errorf("duplicate class name %s", tblClasses[i].name)
+		}
+		names[tblClasses[i].name] = true
+	}
+	for k := range tblSys {
+		sub := mp4SysCount() + k
+		r := runner.NewRand(1, runner.HashStr("C16"), uint64(sub)+1)
+		mc := genMP4(r, sub)
+		if mc == nil {
+			t.Fatal("no material")
+		}
+		if mc.tblClass == "none" || strings.HasSuffix(mc.usedFrame, "(fallback)") {
+			t.Errorf("%s: table class not applied in the frame asked for (%s)", mc.desc, mc.usedFrame)
+			continue
+		}
+		file, ok := mc.spec.build()
+		if !ok {
+			t.Errorf("not built: %s", mc.desc)
+			continue
+		}
+		valid, _ := mc.spec.buildValid()
+		if bytes.Equal(valid, file) {
+			t.Errorf("%s: the file was not changed", mc.desc)
+		}
+		if out != "" {
+			_ = os.WriteFile(filepath.Join(out, fmt.Sprintf("t%04d-%s-%s-%s-v%d.mp4", k, mc.spec.codec(), mc.spec.Frame, mc.tblClass, mc.spec.TblVariant)), file, 0o644)
+		}
+		if _, err := boxwalk.Walk(file); err != nil {
+			t.Errorf("%s: the file does not tile into boxes: %v", mc.desc, err)
+		}
+		f, err := mp4.DecodeFile(bytes.NewReader(file))
+		key := mc.tblClass + " " + mc.spec.Frame
+		if err != nil {
+			rejected[key+": "+err.Error()]++
+			if mc.spec.Tbl.control {
+				t.Errorf("%s: control class rejected: %v", mc.desc, err)
+			}
+			continue
+		}
+		accepted[mc.tblClass]++
+		if !mc.spec.Tbl.control {
+			continue
+		}
+		// control: the samples are where the tables say
+		switch {
+		case f.IsFragmented():
+			var trex *mp4.TrexBox
+			if f.Init != nil {
+				trex = f.Init.Moov.Mvex.Trex
+			}
+			fs, err := f.Segments[0].Fragments[0].GetFullSamples(trex)
+			if err != nil || len(fs) != len(mc.spec.Samples) {
+				t.Errorf("%s: GetFullSamples: %v, %d samples", mc.desc, err, len(fs))
+				continue
+			}
+			for i := range fs {
+				if !bytes.Equal(fs[i].Data, mc.spec.Samples[i]) {
+					t.Errorf("%s: sample %d differs", mc.desc, i)
+				}
+			}
+		default:
+			stbl := f.Moov.Trak.Mdia.Minf.Stbl
+			var off int
+			if stbl.Stco != nil {
+				off = int(stbl.Stco.ChunkOffset[0])
+			} else {
+				off = int(stbl.Co64.ChunkOffset[0])
+			}
+			for i, smp := range mc.spec.Samples {
+				n := int(stbl.Stsz.GetSampleSize(i + 1))
+				if mc.spec.Frame == "real-prog" {
+					if i >= 2 {
+						break
+					}
+					smp = fitSample(smp, n, mc.spec.codec())
+				}
+				if off+n > len(file) || !bytes.Equal(file[off:off+n], smp) {
+					t.Errorf("%s: sample %d differs (%d bytes at %d)", mc.desc, i, n, off)
+				}
+				off += n
+			}
+		}
+	}
+	for _, tc := range tblClasses {
+		if accepted[tc.name] == 0 {
+			fmt.Printf("class %s: never accepted by mp4.DecodeFile\n", tc.name)
+		}
+	}
+	var keys []string
+	for k := range rejected {
+		keys = append(keys, k)
+	}
+	sort.Strings(keys)
+	for _, k := range keys {
+		fmt.Printf("rejected by mp4.DecodeFile (%d files): %s\n", rejected[k], k)
+	}
+	fmt.Println(len(tblClasses), "table classes,", len(tblSys), "systematic table cases")
 }
